@@ -56,7 +56,7 @@ def project_wire_file(path):
 
 # ----------------------------------------------------------------------------- scenario generation (wire view)
 ALL_KINDS = ["subscribe", "cancel", "relay", "unrelay", "joinFan", "close", "gate", "hpeer", "release", "resetIn", "rstIn",
-             "dupIn", "down", "up", "rsub", "quiet", "bsub"]
+             "dupIn", "dupInSet", "down", "up", "rsub", "quiet", "bsub"]
 
 
 def tla_set(xs):
@@ -236,7 +236,7 @@ def assemble_net(acts, router, nodes=("A", "B"), topics=("T1",), linked=True):
 # ----------------------------------------------------------------------------- model checking
 MC_BASE = {"Cap": 1, "MaxOps": 5, "MaxDrops": 2, "MaxResetOut": 1, "MaxResetIn": 1, "MaxDisc": 1, "MaxGate": 1, "MaxHold": 1,
            "MaxRemote": 2, "MaxRef": 2, "AllowFanout": False, "FixD12": True, "RetryRechecks": True, "RetryFanoutAware": True,
-           "ClosedOrdered": True}
+           "ClosedOrdered": True, "DupClears": True, "MaxDup": 0}
 MC_INV = ["TypeOK", "P_C05_WireTruth", "P_C05_ListPeers", "P_C05_NoSpuriousAnnounce", "P_C05_Settles"]
 
 
@@ -252,14 +252,15 @@ def mc_cfg(two_peers, **over):
 def model_checking(ctx):
     """Exhaustive MC of Interest / InterestSub; the as-found deviations must fail (non-vacuity)."""
     wire_side = dict(MaxResetIn=0, MaxRemote=0)                      # the wire does not depend on the inbound direction
-    belief_side = dict(MaxOps=1, MaxDrops=0, MaxGate=0, MaxRemote=3)  # the belief does not depend on queues and retries
+    belief_side = dict(MaxOps=1, MaxDrops=0, MaxGate=0, MaxRemote=2, MaxDup=1)  # the belief does not depend on queues and retries
     jobs = [
         ("mc-wire-1peer", "MCInterest1", mc_cfg(False, **wire_side), "ok", None, 900),
         ("mc-belief-2peers", "MCInterest", mc_cfg(True, **belief_side), "ok", None, 900),
         ("mc-asfound-D12", "MCInterest", mc_cfg(True, FixD12=False, **belief_side), "fail", "P_C05_ListPeers", 600),
-        ("mc-asfound-late-closedstream", "MCInterest", mc_cfg(True, ClosedOrdered=False, **belief_side), "fail", "P_C05_ListPeers", 600),
+        ("mc-prefix-D19-late-closedstream", "MCInterest", mc_cfg(True, ClosedOrdered=False, **belief_side), "fail", "P_C05_ListPeers", 600),
+        ("mc-seeded-replaced-stream-not-cleared", "MCInterest", mc_cfg(True, DupClears=False, **belief_side), "fail", "P_C05_ListPeers", 600),
         ("mc-seeded-retry-no-recheck", "MCInterest1", mc_cfg(False, RetryRechecks=False, **wire_side), "fail", "P_C05_NoSpuriousAnnounce", 600),
-        ("mc-asfound-retry-fanout", "MCInterest1", mc_cfg(False, AllowFanout=True, RetryFanoutAware=False, MaxOps=6, MaxDisc=0, MaxResetOut=0,
+        ("mc-prefix-D20-retry-fanout", "MCInterest1", mc_cfg(False, AllowFanout=True, RetryFanoutAware=False, MaxOps=6, MaxDisc=0, MaxResetOut=0,
                                                           MaxGate=0, **wire_side), "fail", "P_C05_NoSpuriousAnnounce", 600),
         ("mc-sub", "InterestSub", "MCInterestSub.cfg", "ok", None, 300),
         ("mc-sub-seeded", "InterestSub", "MCInterestSubBug.cfg", "fail", "P_C05_CancelledNext", 300),
@@ -292,7 +293,7 @@ def model_checking(ctx):
 
 
 # ----------------------------------------------------------------------------- scenario plan
-# counterexample of the as-found model (mc-asfound-retry-fanout) translated to stimuli: a dropped subscribe announcement of
+# counterexample of the pre-fix model (mc-prefix-D20-retry-fanout) translated to stimuli: a dropped subscribe announcement of
 # T2 is still being retried (the gate keeps the queue full) when T2 is closed, re-joined FanoutOnly and subscribed again
 FORCED_FANOUT_RETRY = [
     {"a": "gate", "p": "p1", "on": True}, {"a": "subscribe", "t": "T1"}, {"a": "relay", "t": "T1"}, {"a": "relay", "t": "T2"},
@@ -316,6 +317,14 @@ FORCED_HELLO_CONTENT = [
     {"a": "peer", "p": "p1", "subs": ["T1"]}, {"a": "quiet"}, {"a": "resetIn", "p": "p2"}, {"a": "quiet"}]
 
 
+# a still-connected peer opens a second stream WITHOUT closing the first; its hello announces a different set
+# (disjoint, superset, subset of what the replaced stream announced): the belief must follow the live stream
+FORCED_DUP_INBOUND = [
+    {"a": "peer", "p": "p1", "subs": ["T2"]}, {"a": "quiet"}, {"a": "peer", "p": "p1", "subs": ["T1", "T2"]}, {"a": "quiet"},
+    {"a": "peer", "p": "p1", "subs": ["T1"]}, {"a": "sub", "p": "p2", "t": "T1", "v": True}, {"a": "sub", "p": "p2", "t": "T2", "v": True},
+    {"a": "peer", "p": "p2", "subs": ["T2"]}, {"a": "quiet"}]
+
+
 def wire_plan(ctx):
     """(class name, generator arguments, assemble arguments, quick sample, thorough sample)."""
     api = ["subscribe", "cancel", "relay", "unrelay"]
@@ -331,6 +340,7 @@ def wire_plan(ctx):
                         topics=("T1",), fan=(), **one), dict(topics=("T1",), **one), 330, 3500),
         ("faults-2peers", dict(L=3, kinds=["subscribe", "cancel", "relay", "resetIn", "rstIn", "dupIn", "down", "up", "rsub", "quiet"], topics=("T1",), fan=()),
          dict(topics=("T1",)), 120, 1200),
+        ("dupinbound", dict(L=4, kinds=["dupInSet", "dupIn", "rsub", "rstIn", "subscribe", "quiet"], max_fault=3, **one), dict(one), 150, 1500),
         ("nextcancel", dict(L=6, kinds=["bsub", "subscribe", "cancel", "quiet"], topics=("T1",), fan=(), **one), dict(topics=("T1",), **one), 140, 1200),
     ]
 
@@ -369,7 +379,8 @@ def build_wire_scenarios(ctx, rng):
         scns.append(assemble_wire(FORCED_HELLO_RACE, router=router, cls="forced-hello-race", held=("p1",)))
         scns.append(assemble_wire(FORCED_INBOUND_FLIP, router=router, cls="forced-inbound-flip"))
         scns.append(assemble_wire(FORCED_HELLO_CONTENT, router=router, cls="forced-hello-content"))
-    classes["forced"] = {"generated": 12, "replayed": 12, "exhaustive": True}
+        scns.append(assemble_wire(FORCED_DUP_INBOUND, router=router, cls="forced-dup-inbound"))
+    classes["forced"] = {"generated": 15, "replayed": 15, "exhaustive": True}
     return scns, gen_states, gen_trans, classes
 
 
@@ -484,8 +495,8 @@ def validate(ctx, module, scenarios, name, chunk):
 
 # ----------------------------------------------------------------------------- verdict
 D12_SIG = {"cause": "StreamReset", "dir": "outbound", "inbound_alive": True}
-RETRY_FANOUT_SIG = {"cause": "RetryIgnoresFanoutOnly"}
-LATE_CLOSED_SIG = {"cause": "StreamReset", "dir": "inbound-replaced", "race": "ClosedStreamAfterHello"}
+RETRY_FANOUT_SIG = {"cause": "RetryIgnoresFanoutOnly"}      # D20, fixed in /repo (ae65266): a recurrence is a VIOLATION
+LATE_CLOSED_SIG = {"cause": "StreamReset", "dir": "inbound-replaced", "race": "ClosedStreamAfterHello"}   # D19, fixed (a3fad9c)
 
 
 def signature(v, view):
@@ -561,6 +572,7 @@ WIRE_OBLIGATIONS = {
     "fanout-only subscribe": ["fanoutSubscribe"],
     "outbound stream reset": ["fault:resetIn"],
     "inbound stream reset / close / duplicate": ["fault:resetOut", "fault:closeOut", "dupInbound", "inboundReopened"],
+    "duplicate inbound stream whose hello differs (subset, disjoint, superset)": ["dupInbound:subset", "dupInbound:disjoint", "dupInbound:superset"],
     "disconnect and reconnect": ["fault:down", "reconnect"],
     "Next after Cancel (buffered, and a reader blocked in Next)": ["nextAfterCancel", "readerCancelled"],
     "quiescent lines judged": ["quiet"],
